@@ -121,6 +121,7 @@ class FirstOrderFD(BaseGradientApproximator):
         f_0: ndarray,
         f_m: ndarray,
         numerical_error: float = EPSILON,
+        step: float | None = None,
     ) -> tuple[ndarray, ndarray]:
         r"""Compute the optimal step of a function.
 
@@ -139,15 +140,20 @@ class FirstOrderFD(BaseGradientApproximator):
                 By default, Machine epsilon (appx 1e-16),
                 but can be higher.
                 when the calculation of :math:`f` requires a numerical resolution.
+            step: The step used to compute ``f_p`` and ``f_m``.
+                If ``None``, use the default differentiation step.
 
         Returns:
             The errors.
             The optimal steps.
         """
+        if step is None:
+            step = self.step
+
         n_out = f_p.size
         if n_out == 1:
             t_e, c_e, opt_step = compute_best_step(
-                f_p, f_0, f_m, self.step, epsilon_mach=numerical_error
+                f_p, f_0, f_m, step, epsilon_mach=numerical_error
             )
             error = 0.0 if t_e is None else t_e + c_e
         else:
@@ -155,7 +161,7 @@ class FirstOrderFD(BaseGradientApproximator):
             opt_steps = zeros(n_out)
             for i in range(n_out):
                 t_e, c_e, opt_steps[i] = compute_best_step(
-                    f_p[i], f_0[i], f_m[i], self.step, epsilon_mach=numerical_error
+                    f_p[i], f_0[i], f_m[i], step, epsilon_mach=numerical_error
                 )
                 if t_e is None:
                     errors[i] = 0.0
@@ -210,7 +216,7 @@ class FirstOrderFD(BaseGradientApproximator):
                 f_p = outputs[i + 1]
                 f_m = outputs[n_dim + i + 1]
                 errs, opt_step = comp_step(
-                    f_p, f_0, f_m, numerical_error=numerical_error
+                    f_p, f_0, f_m, numerical_error=numerical_error, step=opt_steps[i]
                 )
                 errors[i] = errs
                 opt_steps[i] = opt_step
@@ -220,7 +226,7 @@ class FirstOrderFD(BaseGradientApproximator):
                 f_p = self.f_pointer(x_p_arr[:, i], **kwargs)
                 f_m = self.f_pointer(x_m_arr[:, i], **kwargs)
                 errs, opt_step = comp_step(
-                    f_p, f_0, f_m, numerical_error=numerical_error
+                    f_p, f_0, f_m, numerical_error=numerical_error, step=opt_steps[i]
                 )
                 errors[i] = errs
                 opt_steps[i] = opt_step
